@@ -306,9 +306,10 @@ example : ∀ g ∈ [Gas.constant (1 / 1000 : ℝ), Gas.twoPoint (1 / 10000) (1 
 /-! ### availability of opacity data along a session (`OpacityCache`: path changes, files, tables in memory) -/
 
 /-- **the molecules that have opacity data at a moment of a session**: the cross-section files of the directory the
-    opacity path points to at that moment, and the tables held in memory — nothing else -/
+    opacity path points to at that moment, the molecules declared absorbing by the last `force_active`, and the tables
+    held in memory — nothing else -/
 theorem session_available (s : CacheState) (m : String) :
-    m ∈ s.molecules ↔ (∃ i, s.path = some i ∧ m ∈ s.dirs.getD i []) ∨ m ∈ s.loaded := by
+    m ∈ s.molecules ↔ (∃ i, s.path = some i ∧ m ∈ s.dirs.getD i []) ∨ m ∈ s.forced ∨ m ∈ s.loaded := by
   unfold CacheState.molecules CacheState.discovered
   cases h : s.path with
   | none => simp
@@ -322,8 +323,43 @@ theorem session_ask_pure (s : CacheState) (before after : List CacheOp) :
 
 /-- after the opacity path is switched, the files of the NEW directory count (with what is in memory) -/
 theorem session_set_path (s : CacheState) (i : Nat) (m : String) :
-    m ∈ (s.step (.setPath i)).molecules ↔ m ∈ s.dirs.getD i [] ∨ m ∈ s.loaded := by
+    m ∈ (s.step (.setPath i)).molecules ↔ m ∈ s.dirs.getD i [] ∨ m ∈ s.forced ∨ m ∈ s.loaded := by
   simp [CacheState.step, CacheState.molecules, CacheState.discovered]
+
+/-- **the forced-active list is what the last `force_active` call handed over — nothing that happens afterwards (path
+    switches, files, tables, clearing the cache, any number of chemistries constructed) adds to it or takes from it**: a
+    molecule found under an earlier path does not stay available through it -/
+theorem session_forced_last (s : CacheState) (before after : List CacheOp) (ms : List String)
+    (hafter : ∀ op ∈ after, ∀ l, op ≠ CacheOp.force l) :
+    (s.run (before ++ CacheOp.force ms :: after)).forced = ms := by
+  have key : ∀ (after : List CacheOp) (t : CacheState), (∀ op ∈ after, ∀ l, op ≠ CacheOp.force l) →
+      (t.run after).forced = t.forced := by
+    intro after
+    induction after with
+    | nil => intro t _; rfl
+    | cons op rest ih =>
+      intro t h
+      have hrest : ∀ o ∈ rest, ∀ l, o ≠ CacheOp.force l := fun o ho => h o (List.mem_cons_of_mem _ ho)
+      have hop : (t.step op).forced = t.forced := by
+        cases op with
+        | force l => exact absurd rfl (h _ List.mem_cons_self l)
+        | register m => simp only [CacheState.step]; split <;> rfl
+        | load m => simp only [CacheState.step]; split <;> [rfl; (split <;> rfl)]
+        | _ => rfl
+      show ((t.step op).run rest).forced = t.forced
+      rw [ih (t.step op) hrest, hop]
+  have : s.run (before ++ CacheOp.force ms :: after) = ((s.run before).step (.force ms)).run after := by
+    simp [CacheState.run, List.foldl_append]
+  rw [this, key after _ hafter]
+  rfl
+
+/-- what is available right after `force_active ms`: the files of the current path, `ms`, and the tables in memory — the
+    list of an earlier `force_active` call no longer counts -/
+theorem session_force (s : CacheState) (ms : List String) (m : String) :
+    m ∈ (s.step (.force ms)).molecules ↔
+      (∃ i, s.path = some i ∧ m ∈ s.dirs.getD i []) ∨ m ∈ ms ∨ m ∈ s.loaded := by
+  rw [session_available]
+  simp [CacheState.step]
 
 /-- **a chemistry constructed at session state `s` splits its gases exactly by the opacity data available at `s`**
     (minus the deactivated molecules): absorbing = available, non-absorbing = the others -/
@@ -349,4 +385,13 @@ example :
     let hist := [CacheOp.addFile 0 "H2O", .addFile 1 "CH4", .setPath 0, .ask, .setPath 1]
     (s0.run hist).molecules = ["CH4"] ∧
     activeGases ["H2", "He", "H2O", "CH4"] (availableActive (s0.run hist).molecules none) = ["CH4"] := by decide
+
+/-- non-vacuity with a forced molecule: TiO is forced while the path points to the H2O directory and a chemistry is
+    constructed there; after the switch to the CH4 directory H2O is no longer available, TiO still is -/
+example :
+    let s0 : CacheState := { path := none, dirs := [[], []], loaded := [] }
+    let hist := [CacheOp.addFile 0 "H2O", .addFile 1 "CH4", .force ["TiO"], .setPath 0, .ask, .setPath 1, .ask]
+    (s0.run hist).forced = ["TiO"] ∧ (s0.run hist).molecules = ["CH4", "TiO"] ∧
+    activeGases ["H2", "He", "H2O", "CH4", "TiO"] (availableActive (s0.run hist).molecules none) = ["CH4", "TiO"] := by
+  decide
 end Taurex.C10
